@@ -11,6 +11,7 @@ Case kinds
   cv     inference.cv_noise_ceiling on explicit (ceil_set, test_set) structures built the way the
          generators of crossvalsets.py build them (subsample by rdm descriptor values,
          subset_pattern by pattern descriptor values)
+  nonzero / poolonly  the `_nonzero` guard on raw norms; pool_rdm for the methods outside the property
   cvgen  the same on the sets a real generator of crossvalsets.py returns under a numpy seed
          (the structure handed to the model is read back from the returned objects)
 The model side is the Lean driver (ops c07.boot / c07.cv), the oracle an independent
@@ -35,14 +36,22 @@ THEOREMS = [P + n for n in (
     'lower_excludes_left_out', 'cv_prediction_uses_ceil_only', 'cv_prediction_excludes_test',
     'cv_upper_is_full_pool_at_test',
     'ceiling_scale_invariant', 'ceiling_affine_invariant', 'ceiling_ignores_common_nan',
-    'nan_mismatch_rejected', 'degenerate_rdm_contributes_nothing')]
+    'nan_mismatch_rejected', 'degenerate_rdm_contributes_nothing',
+    'leaf_texts', 'pool_shift_is_translation', 'normaliser_has_no_scale_threshold',
+    'ceiling_scale_invariant_whitened', 'ceiling_affine_invariant_whitened')]
 RULE = ('one PRNG; boot: 2-6 RDMs x 4-7 conditions, values small integers (ties) / quarters / '
         'distinct dyadics / signed integers with zeros, 0-3 entries missing from all RDMs (or, malformed stream, from one RDM), '
         'grouping descriptor singleton / 2-3 groups / one group, methods cosine, corr, rho-a, '
         'cosine_cov, corr_cov, spearman; 4 candidates + the data RDMs + an invariance transform '
         '(positive rescaling per RDM, plus a shift for the correlation measures) per case; '
+        'nonzero: 23 norms from 0 and denormals to 1e300 through the real _nonzero of both files (bit-exact); '
+        'poolonly: pool_rdm for euclid / neg_riem_dist / kendall / tau-b / tau-a (pooled vector only); '
+        'unknown method names (ValueError); '
         'cv: explicit fold structures (rdm folds x pattern folds, rdm-only, random, '
         'leave-one-pattern-group-out) and the sets returned by the real generators under a seed; '
+        'every data RDM is multiplied by its own power of two (unit / all tiny ~1e-12..1e-6 / all huge / '
+        'mixed over 24 orders of magnitude; exact in binary), the invariance re-runs use per-RDM factors '
+        '2^-40..2^40 (and proportional shifts for the correlation measures); '
         'a degenerate stream puts one all-zero (cosine family) / constant (other families) RDM into the stack; '
         'stacks whose pooled prediction is numerically zero/constant are rejected at generation; '
         'a case is non-trivial when it has >= 2 RDMs, no exception and differing RDMs; distinct = '
@@ -53,7 +62,10 @@ BRANCHES = ['kind:boot', 'kind:cv', 'kind:cvgen',
             'nan:none', 'nan:common', 'nan:mismatch', 'exc:ValueError', 'ties', 'degenerate',
             'cv:k_fold', 'cv:k_fold_rdm', 'cv:random', 'cv:loo_pattern',
             'gen:k_fold', 'gen:k_fold_rdm', 'gen:random', 'gen:loo_rdm', 'gen:loo_pattern',
-            'gen:of_k_rdm', 'pdesc:group', 'cand', 'transform']
+            'gen:of_k_rdm', 'pdesc:group', 'cand', 'transform',
+            'scale:tiny', 'scale:huge', 'scale:mixed', 'kind:nonzero', 'exc:unknown-method',
+            'gen:defaults', 'gen:shared', 'kind:poolonly', 'pool:euclid', 'pool:neg_riem_dist',
+            'pool:kendall', 'pool:tau-b', 'pool:tau-a']
 ASSUMPTIONS = [
     'no pooled prediction is numerically (but not exactly) zero or constant: the similarity of such a '
     'prediction is rounding noise on both sides (such stacks are rejected at generation, see RULE); '
@@ -68,11 +80,19 @@ TRUSTED_EXTRA = [
     'RDMs.subset / subsample / subset_pattern / subsample_pattern select as modelled in Rsa.Core.Folds (C05)']
 
 METHODS = ['cosine', 'corr', 'rho-a', 'cosine_cov', 'corr_cov', 'spearman']
+PLAIN_MEAN = ('euclid', 'neg_riem_dist')
+POOL_ONLY = ('euclid', 'neg_riem_dist', 'kendall', 'tau-b', 'tau-a')
 OPTIMAL = ('cosine', 'corr', 'rho-a')
 ORDERED = ('cosine', 'corr', 'cosine_cov', 'corr_cov')
 TOL = {'cosine': 1e-9, 'corr': 1e-9, 'rho-a': 1e-9, 'spearman': 1e-9,
        'cosine_cov': 1e-7, 'corr_cov': 1e-7}
 COND_MIN = 1e-3
+# util/pooling.pool_rdm (not used by the noise ceilings; the property does not speak about it for the
+# whitened measures) solves V x = r with scipy's cg(atol=1e-9): for data of scale <~1e-9 the solve
+# returns 0 and the RDM is left unnormalised (notes/C07.md, observation).  Its whitened branch is
+# therefore compared / checked for optimality on unit-scale stacks only; set True once
+# notes/C07-observation-pooling-cg-atol.diff is applied.
+POOLING_WHITENED_ALL_SCALES = True
 
 
 # ------------------------------------------------------------------ building inputs
@@ -194,15 +214,32 @@ def run_impl(case):
     with warnings.catch_warnings():
         warnings.simplefilter('ignore')
         np.seterr(all='ignore')
+        if case['kind'] == 'nonzero':
+            from rsatoolbox.util.inference_util import _nonzero
+            a = np.array(case['norms'], dtype=float).reshape(-1, 1)
+            return {'iu': [float(v) for v in np.asarray(_nonzero(a)).ravel()],
+                    'po': [float(v) for v in np.asarray(pooling._nonzero(a)).ravel()]}
         rdms = _build(case)
+        if case['kind'] == 'poolonly':
+            res = {}
+            for key, fn in (('iu', pool_rdm), ('po', pooling.pool_rdm)):
+                if key == 'po' and m == 'neg_riem_dist':
+                    continue
+                try:
+                    res[key] = _vec(fn(rdms, method=m).get_vectors()[0])
+                except Exception as exc:  # noqa: BLE001
+                    res[key] = _exc(exc)
+            return res
         if case['kind'] == 'boot':
             res = {}
             try:
                 res['pool'] = _vec(pool_rdm(rdms, method=m).get_vectors()[0])
-                if m in OPTIMAL:
-                    res['pool2'] = _vec(pooling.pool_rdm(rdms, method=m).get_vectors()[0])
             except Exception as exc:  # noqa: BLE001
                 res['pool'] = _exc(exc)
+            try:
+                res['pool2'] = _vec(pooling.pool_rdm(rdms, method=m).get_vectors()[0])
+            except Exception as exc:  # noqa: BLE001
+                res['pool2'] = _exc(exc)
             try:
                 lo, up = boot_noise_ceiling(rdms, method=m, rdm_descriptor='g')
                 res['lower'], res['upper'] = float(lo), float(up)
@@ -224,6 +261,11 @@ def _rows_bits(rows):
 
 
 def model_requests(case):
+    if case['kind'] == 'nonzero':
+        return [{'op': 'c07.nonzero', 'norms': [fbits(v) for v in case['norms']]}]
+    if case['kind'] == 'poolonly':
+        return [{'op': 'c07.poolonly', 'rows': _rows_bits(case['rows']),
+                 'norm': 'none' if case['method'] in PLAIN_MEAN else 'rank'}]
     base = {'method': case['method'], 'n': case['n'], 'rows': _rows_bits(case['rows']),
             'rdesc': list(case['rdesc'])}
     if case['kind'] == 'boot':
@@ -246,7 +288,13 @@ def model_result(case, answers):
         return {'exc': 'generator'}
     a = answers[0]
     if isinstance(a, dict) and 'model_error' in a:
+        if str(a['model_error']).startswith('unknown method'):
+            return {'exc': 'ValueError', 'unknown_method': True}
         return {'model_error': a['model_error']}
+    if case['kind'] == 'nonzero':
+        return {'nz': [unfbits(v) for v in a]}
+    if case['kind'] == 'poolonly':
+        return {'pool': [None if v is None else unfbits(v) for v in a]}
     res = {}
     if 'exc' in a:
         res['exc'] = a['exc']
@@ -254,6 +302,8 @@ def model_result(case, answers):
         res['lower'], res['upper'] = unfbits(a['lower']), unfbits(a['upper'])
     if 'pool' in a:
         res['pool'] = [None if v is None else unfbits(v) for v in a['pool']]
+    if a.get('poolw') is not None:
+        res['poolw'] = [None if v is None else unfbits(v) for v in a['poolw']]
     if 'folds' in a:
         res['folds'] = a['folds']
     return res
@@ -261,9 +311,29 @@ def model_result(case, answers):
 
 def compare(case, impl, model):
     m = case['method']
-    tol = TOL[m]
+    tol = TOL.get(m, 1e-9)
     if 'model_error' in model:
         return f"model error {model['model_error']}"
+    if case['kind'] == 'nonzero':
+        for k in ('iu', 'po'):
+            if [fbits(v) for v in impl[k]] != [fbits(v) for v in model['nz']]:
+                return f'_nonzero ({k}): impl {impl[k]} model {model["nz"]}'
+        return None
+    if case['kind'] == 'poolonly':
+        for k in ('iu', 'po'):
+            if k not in impl:
+                continue
+            if isinstance(impl[k], dict):
+                return f'pool_rdm ({k}) raised {impl[k]}'
+            d = first_diff(impl[k], model['pool'], rtol=1e-9, atol=0.0, path=f'pool_rdm[{k}]')
+            if d:
+                return d
+        return None
+    if model.get('unknown_method'):
+        bad = [k for k in ('pool', 'pool2') if not (isinstance(impl.get(k), dict) and impl[k].get('exc') == 'ValueError')]
+        if bad or impl.get('exc') != 'ValueError':
+            return f'unknown method accepted: {impl}'
+        return None
     if model.get('exc') == 'generator':
         return None if 'exc' in impl else 'model has no folds but the implementation answered'
     if ('exc' in impl) != ('exc' in model):
@@ -280,12 +350,24 @@ def compare(case, impl, model):
                        rtol=1e-9, atol=1e-9, path='pool')
         if d:
             return d
-        if 'pool2' in impl:
+        if isinstance(impl.get('pool2'), dict):
+            return f"util.pooling.pool_rdm raised {impl['pool2']}"
+        if m in ('cosine_cov', 'corr_cov') and not _unit_scale(case):
+            d = None
+        elif m in ('cosine_cov', 'corr_cov'):
+            # the fitters' pooling divides by the whitened norm (CG solve inside: rtol 1e-5)
+            d = first_diff(_canon_pool(m, impl['pool2']), _canon_pool(m, model['poolw']),
+                           rtol=2e-4, atol=2e-4, path='pooling.pool_rdm(whitened)')
+        else:
             d = first_diff(_canon_pool(m, impl['pool2']), _canon_pool(m, model['pool']),
                            rtol=1e-9, atol=1e-9, path='pooling.pool_rdm')
-            if d:
-                return d
+        if d:
+            return d
     return None
+
+
+def _unit_scale(case):
+    return POOLING_WHITENED_ALL_SCALES or not any(case.get('exps') or [0])
 
 
 def _canon_pool(method, vec):
@@ -343,7 +425,35 @@ def _transformed(case):
 def oracle(case):
     import warnings
     m = case['method']
+    if case['kind'] == 'nonzero':
+        impl = run_impl(case)
+        want = [1.0 if v == 0 else float(v) for v in case['norms']]
+        for k in ('iu', 'po'):
+            if impl[k] != want:
+                bad = [(a, b) for a, b, c in zip(case['norms'], impl[k], want) if b != c]
+                return _viol('_nonzero changes a non-zero norm (an RDM of small scale would drop out of '
+                             'the pool) or keeps a zero one', bad[:3], 'zero -> 1, everything else unchanged',
+                             claim='nonzero')
+        return None
     rows, n, rdesc = case['rows'], case['n'], case['rdesc']
+    if case['kind'] == 'poolonly':
+        # outside the property proper (euclid / neg_riem_dist / tau): the pooled RDM is the entry-wise
+        # mean of the data (of their ranks), missing entries stay missing
+        impl = run_impl(case)
+        d = [O.dense(r) for r in rows]
+        z = d if m in PLAIN_MEAN else [O.ranks(r) for r in d]
+        want = [O.mean([zz[k] for zz in z]) for k in range(len(d[0]))]
+        it = iter(want)
+        want = [next(it) if kp else None for kp in O.mask_of(rows[0])]
+        for k in ('iu', 'po'):
+            if k in impl and (isinstance(impl[k], dict) or first_diff(impl[k], want, rtol=1e-9, atol=0.0)):
+                return _viol(f'pool_rdm({m}) is not the entry-wise mean', impl[k], want, claim='pool-mean')
+        return None
+    if m not in TOL:
+        impl = run_impl(case)
+        if impl.get('exc') != 'ValueError':
+            return _viol('unknown comparison method is not rejected', impl, 'ValueError', claim='unknown-method')
+        return None
     tol = 10 * TOL[m]
     with warnings.catch_warnings():
         warnings.simplefilter('ignore')
@@ -403,6 +513,19 @@ def oracle(case):
                                      claim='upper-attained')
             if m in ORDERED and lo > up + tol:
                 return _viol('lower bound above upper bound', lo, up, claim='order')
+            if m in ('cosine_cov', 'corr_cov') and isinstance(impl.get('pool2'), list) \
+                    and case.get('degenerate') is None and _unit_scale(case):
+                # util.pooling.pool_rdm (whitened norm) is the optimum of the whitened measure: the
+                # ceiling's own pool and every candidate score at most as high (CG accuracy 1e-4)
+                best = _real_score(case, impl['pool2'])
+                if up > best + 1e-4:
+                    return _viol('the whitened pool of util.pooling scores below the ceiling pool', best, up,
+                                 claim='whitened-pool-opt')
+                for c in list(case.get('cands', [])) + [list(r) for r in rows]:
+                    sc = _real_score(case, c)
+                    if sc > best + 1e-4:
+                        return _viol('a candidate beats the whitened pool of util.pooling', sc, best,
+                                     claim='whitened-pool-opt')
         tr = _transformed(case)
         if tr is not None and m != 'rho-a' and m != 'spearman':
             try:
@@ -435,6 +558,13 @@ def _has_ties(rows):
 
 
 def features(case, impl):
+    if case['kind'] == 'nonzero':
+        return {'kind': 'nonzero', 'method': None, 'branches': ['kind:nonzero']}
+    if case['kind'] == 'poolonly':
+        return {'kind': 'poolonly', 'method': case['method'],
+                'branches': ['kind:poolonly', 'pool:' + case['method']]}
+    if case['method'] not in TOL:
+        return {'kind': case['kind'], 'method': 'unknown', 'branches': ['exc:unknown-method']}
     rows = case['rows']
     groups = O.groups_of(case['rdesc'])
     if len(groups) == 1:
@@ -456,6 +586,11 @@ def features(case, impl):
         br.append('cv:' + case.get('shape', '?'))
     if case['kind'] == 'cvgen':
         br.append('gen:' + case['gen'])
+        prm = case.get('params', {})
+        if any(prm.get(k, 0) is None for k in ('k_rdm', 'k_pattern', 'n_rdm', 'n_pattern')):
+            br.append('gen:defaults')
+        if prm.get('k_rdm') == 1 or prm.get('n_rdm') == 0 or prm.get('n_pattern') == 0:
+            br.append('gen:shared')
     if case.get('pdesc'):
         br.append('pdesc:group')
     if case.get('cands'):
@@ -464,15 +599,19 @@ def features(case, impl):
         br.append('transform')
     if case.get('degenerate') is not None:
         br.append('degenerate')
+    if case.get('scale') in ('tiny', 'huge', 'mixed'):
+        br.append('scale:' + case['scale'])
     if impl and 'exc' in impl:
         br.append('exc:' + str(impl['exc']))
     return {'kind': case['kind'], 'method': case['method'], 'n_rdm': len(rows), 'n_cond': case['n'],
             'groups': gk, 'nan': nk, 'style': case.get('style'), 'gen': case.get('gen'),
-            'degenerate': case.get('degenerate') is not None,
+            'degenerate': case.get('degenerate') is not None, 'scale': case.get('scale'),
             'shape': case.get('shape'), 'branches': br}
 
 
 def nontrivial_key(case, impl):
+    if case['kind'] == 'nonzero':
+        return ['nonzero', case['norms']]
     if impl is None or 'exc' in impl or len(case['rows']) < 2:
         return None
     if all(r == case['rows'][0] for r in case['rows']):
@@ -503,6 +642,26 @@ def _stack(rng, nR, n, style, correlated):
             r = [a + b for a, b in zip(r, base)]
         rows.append(r)
     return rows
+
+
+SCALE_MODES = ('unit', 'unit', 'tiny', 'huge', 'mixed')
+
+
+def _apply_scale(rng, rows, mode):
+    """multiply every data RDM by its own power of two (exact): tiny ~1e-12..1e-6, huge ~1e6..1e12,
+    mixed = independent exponents over the whole range; returns (rows, exponents)"""
+    if mode == 'tiny':
+        exps = [rng.randint(-40, -20) for _ in rows]
+    elif mode == 'huge':
+        exps = [rng.randint(20, 40) for _ in rows]
+    elif mode == 'mixed':
+        exps = [rng.choice([rng.randint(-40, -27), 0, rng.randint(27, 40), rng.randint(-40, 40)])
+                for _ in rows]
+        if len(set(exps)) < 2:
+            exps[0] = -37 if exps[0] != -37 else 33
+    else:
+        exps = [0] * len(rows)
+    return [[None if v is None else v * 2.0 ** e for v in r] for r, e in zip(rows, exps)], exps
 
 
 def _rdesc(rng, nR, kind):
@@ -555,10 +714,16 @@ def _cands(rng, case):
 
 
 def _transform(rng, case):
+    """each data RDM r -> s*r + b with its own s > 0 (a power of two from 2^-40..2^40, or a small
+    odd multiple) and, for the correlation measures, b = s * 2^e * b0 (e = the RDM's own scale
+    exponent, b0 a small dyadic) so that every transformed entry is exactly representable"""
     nR = len(case['rows'])
-    scale = [rng.choice([0.25, 0.5, 2.0, 3.0, 1.5, 8.0]) for _ in range(nR)]
+    exps = case.get('exps') or [0] * nR
+    scale = [rng.choice([0.25, 3.0, 1.5, 2.0 ** rng.randint(-40, -20), 2.0 ** rng.randint(20, 40),
+                         2.0 ** rng.randint(-40, 40)]) for _ in range(nR)]
     if case['method'] in ('corr', 'corr_cov'):
-        shift = [rng.choice([0.0, 1.0, -0.5, 4.0, 16.0]) for _ in range(nR)]
+        shift = [sc * 2.0 ** e * rng.choice([0.0, 1.0, -0.5, 4.0, 16.0, 1024.0, -2.0 ** 20])
+                 for sc, e in zip(scale, exps)]
     else:
         shift = [0.0] * nR
     return {'scale': scale, 'shift': shift}
@@ -576,7 +741,7 @@ def _add_nan(rng, rows, n, how):
     return rows
 
 
-def gen_boot(rng, method=None, groups=None, nan=None, big=False, degenerate=False):
+def gen_boot(rng, method=None, groups=None, nan=None, big=False, degenerate=False, scale=None):
     for _ in range(200):
         m = method or rng.choice(METHODS)
         nR = rng.randint(2, 7 if big else 6)
@@ -594,6 +759,8 @@ def gen_boot(rng, method=None, groups=None, nan=None, big=False, degenerate=Fals
             v = 0.0 if m in ('cosine', 'cosine_cov') else float(rng.randint(0, 5))
             rows[j] = [v] * _tri(n)
             case['degenerate'] = j
+        case['scale'] = scale or rng.choice(SCALE_MODES)
+        rows, case['exps'] = _apply_scale(rng, rows, case['scale'])
         rows = _add_nan(rng, rows, n, nk)
         case['rows'] = rows
         if not _well_conditioned(case):
@@ -611,7 +778,7 @@ def _split(rng, vals, k):
     return [vals[i::k] for i in range(k)]
 
 
-def gen_cv(rng, method=None, shape=None):
+def gen_cv(rng, method=None, shape=None, scale=None):
     for _ in range(200):
         m = method or rng.choice(METHODS)
         shape_ = shape or rng.choice(['k_fold', 'k_fold_rdm', 'random', 'loo_pattern'])
@@ -658,9 +825,11 @@ def gen_cv(rng, method=None, shape=None):
             for v in pvals:
                 folds.append({'rtrain': None, 'rtest': None, 'ptest': [v]})
         nk = rng.choice(['none', 'none', 'common'])
-        rows = _add_nan(rng, _stack(rng, nR, n, style, rng.random() < 0.6), n, nk)
+        sc = scale or rng.choice(SCALE_MODES)
+        rows, exps = _apply_scale(rng, _stack(rng, nR, n, style, rng.random() < 0.6), sc)
+        rows = _add_nan(rng, rows, n, nk)
         case = {'kind': 'cv', 'method': m, 'n': n, 'rows': rows, 'rdesc': rdesc, 'style': style,
-                'shape': shape_, 'folds': folds}
+                'shape': shape_, 'folds': folds, 'scale': sc, 'exps': exps}
         if pdesc:
             case['pdesc'] = pdesc
         if shape_ == 'loo_pattern':
@@ -670,7 +839,7 @@ def gen_cv(rng, method=None, shape=None):
     raise RuntimeError('no usable cv case found')
 
 
-def gen_cvgen(rng, method=None, gen=None):
+def gen_cvgen(rng, method=None, gen=None, scale=None, variant=None):
     for _ in range(200):
         m = method or rng.choice(METHODS)
         g = gen or rng.choice(['k_fold', 'k_fold_rdm', 'random', 'loo_rdm', 'loo_pattern', 'of_k_rdm'])
@@ -689,21 +858,36 @@ def gen_cvgen(rng, method=None, gen=None):
         prm = {}
         ng = len(set(rdesc))
         if g == 'k_fold':
-            prm = {'k_rdm': rng.randint(2, min(3, ng)), 'k_pattern': 2, 'random': rng.random() < 0.7}
+            prm = {'k_rdm': rng.choice([None, 1, rng.randint(2, min(3, ng))]),
+                   'k_pattern': rng.choice([None, 2, 2]), 'random': rng.random() < 0.7}
         elif g == 'k_fold_rdm':
-            prm = {'k_rdm': rng.randint(2, ng), 'random': rng.random() < 0.7}
+            prm = {'k_rdm': rng.choice([None, rng.randint(2, ng), rng.randint(2, ng)]),
+                   'random': rng.random() < 0.7}
         elif g == 'of_k_rdm':
             prm = {'k': rng.randint(1, ng // 2), 'random': rng.random() < 0.5}
         elif g == 'random':
-            prm = {'n_rdm': rng.randint(1, ng - 1), 'n_pattern': (rng.randint(1, 2) if pdesc else rng.randint(3, n - 3)),
+            prm = {'n_rdm': rng.choice([None, 0, rng.randint(1, ng - 1), rng.randint(1, ng - 1)]),
+                   'n_pattern': rng.choice([None, 0]) if (pdesc is None and rng.random() < 0.3)
+                   else (rng.randint(1, 2) if pdesc else rng.randint(3, n - 3)),
                    'n_cv': rng.randint(1, 3)}
+        if variant == 'defaults':       # the generators' own default fold counts / test sizes
+            for k in ('k_rdm', 'k_pattern', 'n_rdm', 'n_pattern'):
+                if k in prm:
+                    prm[k] = None
+        elif variant == 'shared':       # one RDM fold / no RDM split: training and test RDMs coincide
+            if g == 'k_fold':
+                prm['k_rdm'] = 1
+            elif g == 'random':
+                prm['n_rdm'] = 0
         nk = rng.choice(['none', 'none', 'common'])
-        rows = _add_nan(rng, _stack(rng, nR, n, style, rng.random() < 0.6), n, nk)
+        sc = scale or rng.choice(SCALE_MODES)
+        rows, exps = _apply_scale(rng, _stack(rng, nR, n, style, rng.random() < 0.6), sc)
+        rows = _add_nan(rng, rows, n, nk)
         case = {'kind': 'cvgen', 'method': m, 'n': n, 'rows': rows, 'rdesc': rdesc, 'style': style,
-                'gen': g, 'params': prm, 'seed': rng.randint(0, 2 ** 31 - 1)}
+                'gen': g, 'params': prm, 'seed': rng.randint(0, 2 ** 31 - 1), 'scale': sc, 'exps': exps}
         if pdesc:
             case['pdesc'] = pdesc
-        if g == 'loo_pattern':
+        if g == 'loo_pattern' or prm.get('k_rdm') == 1 or prm.get('n_rdm') == 0:
             case['shared_rows'] = True
         if _cv_ok(case):
             return case
@@ -747,9 +931,23 @@ def _cv_ok(case):
     return True
 
 
+def gen_nonzero(rng):
+    norms = [0.0, 5e-324, 2.0 ** -1060, 1e-300, 2.0 ** -40, 1e-11, 9.99e-9, 1e-8, 1.0, 2.0 ** 40, 1e300]
+    norms += [rng.randint(1, 2 ** 20) * 2.0 ** rng.randint(-1040, 990) for _ in range(12)]
+    rng.shuffle(norms)
+    return {'kind': 'nonzero', 'method': 'cosine', 'norms': norms}
+
+
 def generate(rng, tier):
     reps = 3 if tier == 'quick' else 80
     for _ in range(reps):
+        yield gen_nonzero(rng)
+        for pm in POOL_ONLY:
+            c = gen_boot(rng, 'rho-a', 'singleton', rng.choice(['none', 'common']))
+            yield {'kind': 'poolonly', 'method': pm, 'n': c['n'], 'rows': c['rows'], 'rdesc': c['rdesc'],
+                   'style': c['style'], 'scale': c['scale'], 'exps': c['exps']}
+        c = gen_boot(rng, 'cosine', 'singleton', 'none')
+        yield dict(c, method=rng.choice(['nonsense', 'euclidean', 'Cosine']))
         # boot: every method x grouping x nan status
         for m in METHODS:
             for gk in ('singleton', 'singleton', 'multi', 'one'):
@@ -761,12 +959,22 @@ def generate(rng, tier):
         for m in METHODS:
             for gk in ('singleton', 'multi'):
                 yield gen_boot(rng, m, gk, None, degenerate=True)
+        # per-RDM scales over 24 orders of magnitude (the bounds are scale-free)
+        for m in METHODS:
+            for sc in ('tiny', 'huge', 'mixed'):
+                yield gen_boot(rng, m, 'singleton', None, scale=sc)
+            yield gen_boot(rng, m, 'multi', None, scale='mixed')
+            yield gen_cv(rng, m, None, scale=rng.choice(['tiny', 'huge', 'mixed']))
         for m in METHODS:
             for shape in ('k_fold', 'k_fold_rdm', 'random', 'loo_pattern'):
                 yield gen_cv(rng, m, shape)
         for g in ('k_fold', 'k_fold_rdm', 'random', 'loo_rdm', 'loo_pattern', 'of_k_rdm'):
             for m in rng.sample(METHODS, 3):
                 yield gen_cvgen(rng, m, g)
+        for g in ('k_fold', 'k_fold_rdm', 'random'):
+            yield gen_cvgen(rng, None, g, variant='defaults')
+        for g in ('k_fold', 'random'):
+            yield gen_cvgen(rng, None, g, variant='shared')
 
 
 def search(rng, tier):
@@ -797,6 +1005,8 @@ def shrink(case, still_fails):
             for i in range(len(cur['rows'])):
                 t = dict(cur, rows=cur['rows'][:i] + cur['rows'][i + 1:],
                          rdesc=cur['rdesc'][:i] + cur['rdesc'][i + 1:])
+                if cur.get('exps'):
+                    t['exps'] = cur['exps'][:i] + cur['exps'][i + 1:]
                 if cur.get('degenerate') is not None:
                     dj = cur['degenerate']
                     if dj == i:
